@@ -266,14 +266,14 @@ class ErrRef:
 
 
 class ErrElem:
-    """Generic element of a result sequence `src` (a Gen node)."""
-    __slots__ = ("src",)
+    """Generic element of a result sequence `src` (a Gen node); `first`: it is the first element."""
+    __slots__ = ("src", "first")
 
-    def __init__(self, src):
-        self.src = src
+    def __init__(self, src, first=False):
+        self.src, self.first = src, first
 
     def __repr__(self):
-        return "ErrElem(%r)" % (self.src,)
+        return "ErrElem(%r%s)" % (self.src, ", first" if self.first else "")
 
 
 # ---------------------------------------------------------------------------
@@ -437,7 +437,7 @@ def subst(x, pairs):
         return ErrVal(x.cls, subst(x.base, pairs), {k: subst(v, pairs) for k, v in x.fields.items()},
                       {k: subst(v, pairs) for k, v in x.setif.items()})
     if isinstance(x, ErrElem):
-        return ErrElem(subst(x.src, pairs))
+        return ErrElem(subst(x.src, pairs), x.first)
     if isinstance(x, PathV):
         return PathV([subst(i, pairs) for i in x.front], subst(x.base, pairs), [subst(i, pairs) for i in x.back])
     if isinstance(x, ExcVal):
